@@ -31,6 +31,14 @@ CHECKS["C14"] = dict(cat="model_checking", ref="DESIGN.md 4/C14",
     text="get_response_pdu_size() of every request class is proved equal to its closed form over unbounded integers (AST->z3 Int translation); the client's read sizes are decided by symbolically executing whole client transactions (real transaction manager, framer, decoder) against a scripted transport holding exactly the frame the real server code sends plus a sentinel: the call returns the decoded reply and leaves exactly the sentinel unread, for normal and exception replies, on RTU/ASCII/binary/TLS/TCP.",
     note="Quantities are concrete per obligation (quick 1,2,8,9; thorough adds byte-boundary quantities and the spec maxima); unit id and values symbolic; address is one in-range and one out-of-range value. Scripted transport = environment. TLS exception replies are a listed known finding; binary frames with delimiter bytes are C03's.",
     technique=TECH)
+CHECKS["C19"] = dict(cat="model_checking", ref="DESIGN.md 4/C19",
+    text="BinaryPayloadBuilder/Decoder are executed symbolically for every value type and sequences of up to three typed values under all four byte-order x word-order combinations: the register image equals the conventional layout (reference word/byte shuffle) and the decoder returns every value, through raw bytes and through to_registers/fromRegisters, for EVERY bit pattern of each value (integers over their full ranges; floats as bit patterns, a superset of all floats).",
+    note="IEEE conversion itself is CPython's struct (trusted): floats travel as bit patterns through the two struct calls that touch them. Strings are 3 bytes, bit groups 8 bits, sequences are the type combinations enumerated per obligation. struct.pack of an integer the harness composed from bytes is modelled by the identity to_bytes(from_bytes(b)) == b.",
+    technique=TECH)
+CHECKS["C20"] = dict(cat="model_checking", ref="DESIGN.md 4/C20",
+    text="The whole Read Device Identification request/response chain (ServerDecoder -> execute -> DeviceInformationFactory -> encode with _encode_object space accounting) is executed symbolically over identity objects of SYMBOLIC length 0..245 and symbolic content: every PDU <= 253 bytes, chain terminates, union of pages = exactly the configured non-empty objects of the category from the start id, each once; response bytes equal header + claimed objects for concrete length vectors incl. boundary lengths; individual access returns exactly the object.",
+    note="Populated object-id sets are concrete per obligation (dictionary keys). With symbolic lengths paging is decided on lengths and header fields (byte equality would make the engine enumerate lengths); byte-level consistency is decided for the concrete length vectors listed. A 245-byte object (fits no PDU) is a listed known finding. Client-side decoding is C01's obligation.",
+    technique=TECH)
 NA_REASON = "check not built yet in this revision (work in progress; see DESIGN.md build order)"
 
 def main():
